@@ -15,7 +15,9 @@
    * a history on one node is accepted iff every Process step is accepted under the signer in force at that step and every
      Rotate result is the model's;
    * the fresh ids of a run are non-empty and pairwise distinct; the concurrent part saw no duplicate and no panic (those
-     two counts are computed by the harness — Coq only reads them). *)
+     two counts are computed by the harness — Coq only reads them); the concurrent Rotate / Process part saw no listed-type
+     event stored without a signature, no signature that verifies under none of the installed signers, no signed unlisted
+     event (again counted by the harness). *)
 From Coq Require Import List Bool Arith NArith Lia.
 From Verif Require Import Alist Base64 Json JsonProofs Formatters CloudEvents Run_Formatters RunFormatsSound Run_CloudEvents.
 Import ListNotations.
@@ -268,15 +270,17 @@ Definition case_accepted (c : ccase) : Prop :=
   | CCe _ k => ce_accepted k
   | CFresh _ ids => Forall (fun i => i <> []) ids /\ NoDup ids
   | CConc _ _ dups panics => dups = [] /\ panics = 0
+  | CConcSign _ _ unsigned bad signed_unl panics => unsigned = 0 /\ bad = 0 /\ signed_unl = 0 /\ panics = 0
   end.
 
 Theorem run_case_nil_iff c : run_case c = [] <-> case_accepted c.
 Proof.
-  destruct c as [id k steps|id k|id ids|id n dups panics]; cbn [run_case case_accepted].
+  destruct c as [id k steps|id k|id ids|id n dups panics|id n unsigned bad sunl panics]; cbn [run_case case_accepted].
   - rewrite map_nil_iff. apply run_hist_nil_iff.
   - rewrite map_nil_iff. apply run_ce_nil_iff.
   - rewrite ite_nil_iff, andb_true_iff, forallb_nonempty, nodupb_iff. tauto.
   - rewrite ite_nil_iff, andb_true_iff, N.eqb_eq. destruct dups; split; intros [H1 H2]; try discriminate; auto.
+  - rewrite app_nil_iff, !ite_nil_iff, !andb_true_iff, !N.eqb_eq. tauto.
 Qed.
 
 Theorem mismatches_nil_iff : forall cs, mismatches cs = [] <-> Forall case_accepted cs.
